@@ -199,3 +199,99 @@ def card(S):
 def is_series(A):
     import pandas as pd
     return isinstance(A, pd.Series)
+
+
+def coinc(xs):
+    xs = list(xs)
+    return sum(1 for i in range(len(xs)) for j in range(len(xs)) if i != j and xs[i] == xs[j])
+
+
+def cross(xs, ys):
+    return sum(1 for a in xs for b in ys if a == b)
+
+
+def as_array(x):
+    import numpy as np
+    import pandas as pd
+    return x.to_numpy() if isinstance(x, pd.Series) else np.asarray(x)
+
+
+def is_pair_tuple(x):
+    return isinstance(x, tuple) and len(x) == 2
+
+
+def paired_frame(x):
+    import pandas as pd
+    return pd.DataFrame({"CDR3A": list(x[0]), "CDR3B": list(x[1])})
+
+
+def _is_table(x):
+    import pandas as pd
+    return isinstance(x, pd.DataFrame)
+
+
+def is_table(x):
+    return _is_table(x)
+
+
+def sample_keys(x):
+    if _is_table(x):
+        return [tuple(r) for r in x.fillna("").itertuples(index=False, name=None)]
+    if isinstance(x, tuple) and len(x) == 2:
+        return list(zip(*x))
+    return list(x)
+
+
+def joined_rows(x, sep, on=None):
+    if isinstance(x, tuple) and len(x) == 2:
+        return [sep.join(str(v) for v in r) for r in zip(*x)]
+    if _is_table(x):
+        if on is not None:
+            x = x[list(on)]
+        return [sep.join(str(v) for v in r) for r in x.fillna("").itertuples(index=False, name=None)]
+    return list(x)
+
+
+def rows(df, on=None):
+    if on is not None:
+        df = df[list(on)]
+    return [tuple(r) for r in df.itertuples(index=False, name=None)]
+
+
+def cells_ok(x, ch):
+    if x is None:
+        return True
+    if isinstance(x, tuple) and len(x) == 2:
+        return len(x[0]) == len(x[1]) and all(ch not in str(v) for col in x for v in col)
+    if _is_table(x):
+        return all(ch not in str(v) for r in x.fillna("").itertuples(index=False, name=None) for v in r)
+    return True
+
+
+def comparable(a, b):
+    def width(x):
+        if _is_table(x):
+            return x.shape[1]
+        if isinstance(x, tuple) and len(x) == 2:
+            return 2
+        return 0
+    if a is None or b is None:
+        return True
+    if width(a) != width(b):
+        return False
+    if width(a) == 0:
+        return type(list(a)[0]) == type(list(b)[0]) if len(a) and len(b) else True
+    return True
+
+
+def columns(df):
+    return list(df.columns)
+
+
+def all_in(xs, ys):
+    return all(x in ys for x in xs)
+
+
+def ucounts(xs):
+    import numpy as np
+    return ExactSeq([Fraction(int(c)) for c in np.unique(np.asarray(xs), return_counts=True)[1]])
